@@ -1,7 +1,11 @@
 (* C16 - Default coercions accept exactly the declared sources and parse like the stdlib.
-   The stdlib constructors are oracles ([oracle E k x]: None = raised a caught exception);
-   "parses like the stdlib" therefore holds by construction of the model and is tied to
-   CPython by running the real constructors for every string of every case. *)
+   The stdlib constructors are oracles ([oracle E k x]: None = raised a caught exception) in the
+   characterisations below; "parses like the stdlib" is tied to CPython by running the real
+   constructors for every string of every case.  PARTIAL only in what stays an oracle: the
+   canonical-text round-trip is proved further down for UUIDs, dates and datetimes against concrete
+   models of the text forms (Model/Text.v: str(UUID) / UUID(hex), date.isoformat / fromisoformat /
+   toordinal, datetime.isoformat / fromisoformat with whole-second offsets), each compared with
+   CPython on every run; Decimal(str) and the forms isoformat does not write remain oracles. *)
 From Coq Require Import ZArith List Bool.
 From KV Require Import Base.PyVal Base.Prims Model.Validator Model.Sem Proofs.Coerce.
 Import ListNotations.
